@@ -210,8 +210,35 @@ func (s *script) addresses(frame common.Address, factory common.Address, out map
 
 // ---------------------------------------------------------------- reference state
 
+// balances in the denominations other than the EVM one (never mutated in place)
+type coins map[string]*big.Int
+
+func (c coins) get(d string) *big.Int {
+	if v, ok := c[d]; ok {
+		return v
+	}
+	return big.NewInt(0)
+}
+
+func (c coins) isZero() bool {
+	for _, v := range c {
+		if v.Sign() != 0 {
+			return false
+		}
+	}
+	return true
+}
+
 type refState struct {
 	bal        map[common.Address]*big.Int // values are never mutated in place
+	// balances in every other denomination: the interpreter has no instruction that reads or moves them, so a frame
+	// (reverted or not) cannot change them; only the deletion of a self-destructed account at the end of the
+	// transaction destroys them, together with the account.  A created account keeps what its address held.
+	fbal          map[common.Address]coins
+	fburn         coins                   // destroyed so far, per denomination
+	created       map[common.Address]bool // accounts (re-)created by surviving frames of the current tx
+	lastCreated   []common.Address        // ... of the last finished tx, sorted
+	lastDestroyed []common.Address        // accounts deleted at the end of the last finished tx (self-destructed), sorted
 	isK        map[common.Address]bool     // accounts whose code is rtK (including self-destructed ones until the tx ends)
 	nonce      map[common.Address]uint64   // nonces of contracts created in the current tx
 	destructed map[common.Address]bool
@@ -223,13 +250,18 @@ type refState struct {
 
 func newRefState(factory common.Address) *refState {
 	return &refState{bal: map[common.Address]*big.Int{}, isK: map[common.Address]bool{}, nonce: map[common.Address]uint64{},
-		destructed: map[common.Address]bool{}, burn: big.NewInt(0), factory: factory, stats: map[string]int{}}
+		destructed: map[common.Address]bool{}, burn: big.NewInt(0), factory: factory, stats: map[string]int{},
+		fbal: map[common.Address]coins{}, fburn: coins{}, created: map[common.Address]bool{}}
 }
 
 func (st *refState) clone() *refState {
 	c := &refState{bal: make(map[common.Address]*big.Int, len(st.bal)), isK: make(map[common.Address]bool, len(st.isK)),
 		nonce: make(map[common.Address]uint64, len(st.nonce)), destructed: make(map[common.Address]bool, len(st.destructed)),
-		burn: new(big.Int).Set(st.burn), logs: st.logs, factory: st.factory, stats: st.stats}
+		burn: new(big.Int).Set(st.burn), logs: st.logs, factory: st.factory, stats: st.stats,
+		fbal: st.fbal, fburn: st.fburn, created: make(map[common.Address]bool, len(st.created))}
+	for k, v := range st.created {
+		c.created[k] = v
+	}
 	for k, v := range st.bal {
 		c.bal[k] = v
 	}
@@ -246,7 +278,7 @@ func (st *refState) clone() *refState {
 }
 
 func (st *refState) restore(c *refState) {
-	st.bal, st.isK, st.nonce, st.destructed, st.burn, st.logs = c.bal, c.isK, c.nonce, c.destructed, c.burn, c.logs
+	st.bal, st.isK, st.nonce, st.destructed, st.burn, st.logs, st.created = c.bal, c.isK, c.nonce, c.destructed, c.burn, c.logs, c.created
 }
 
 func (st *refState) get(a common.Address) *big.Int {
@@ -273,7 +305,16 @@ func (st *refState) transfer(from, to common.Address, v *big.Int) bool {
 	return true
 }
 
-// SELFDESTRUCT executed by account a with beneficiary b
+// a CREATE/CREATE2 that passed the collision check makes a new account object at the address; whatever the address
+// already held (in any denomination) is carried over
+func (st *refState) markCreated(a common.Address) {
+	st.created[a] = true
+	if !st.fbal[a].isZero() {
+		st.stats["created-at-address-holding-other-denoms"]++
+	}
+}
+
+// SELFDESTRUCT executed by account a with beneficiary b: only the EVM denomination moves
 func (st *refState) selfdestruct(a, b common.Address) {
 	amt := st.get(a)
 	if st.destructed[a] {
@@ -328,6 +369,7 @@ func (st *refState) run(frame common.Address, s *script) (reverted bool) {
 				break
 			}
 			st.isK[ka] = true
+			st.markCreated(ka)
 			st.stats["create2-in-script"]++
 		case sSub:
 			if st.get(frame).Cmp(o.value) < 0 {
@@ -338,6 +380,7 @@ func (st *refState) run(frame common.Address, s *script) (reverted bool) {
 			child := crypto.CreateAddress(frame, n)
 			snap := st.clone()
 			st.nonce[child] = 1
+			st.markCreated(child)
 			st.transfer(frame, child, o.value)
 			if st.run(child, o.sub) {
 				if len(st.destructed) > len(snap.destructed) {
@@ -373,7 +416,43 @@ func (st *refState) finishTx() {
 		st.burn = new(big.Int).Add(st.burn, st.get(a))
 		st.bal[a] = big.NewInt(0)
 		delete(st.isK, a)
+		// the account is deleted with everything it holds: every denomination
+		if f := st.fbal[a]; !f.isZero() {
+			st.stats["destroyed-account-held-other-denoms"]++
+			nb := coins{}
+			for d, v := range st.fburn {
+				nb[d] = v
+			}
+			for d, v := range f {
+				nb[d] = new(big.Int).Add(nb.get(d), v)
+			}
+			st.fburn = nb
+			st.fbal[a] = coins{}
+		}
 	}
+	st.lastDestroyed = ds
+	st.lastCreated = st.lastCreated[:0:0]
+	for a := range st.created {
+		st.lastCreated = append(st.lastCreated, a)
+	}
+	sort.Slice(st.lastCreated, func(i, j int) bool { return st.lastCreated[i].Hex() < st.lastCreated[j].Hex() })
+	st.created = map[common.Address]bool{}
 	st.destructed = map[common.Address]bool{}
 	st.nonce = map[common.Address]uint64{}
+}
+
+// a bank send of other denominations (Cosmos transaction, already known to have succeeded)
+func (st *refState) bankSend(from, to common.Address, d string, amt *big.Int) {
+	f := coins{}
+	for k, v := range st.fbal[from] {
+		f[k] = v
+	}
+	f[d] = new(big.Int).Sub(f.get(d), amt)
+	st.fbal[from] = f
+	t := coins{}
+	for k, v := range st.fbal[to] {
+		t[k] = v
+	}
+	t[d] = new(big.Int).Add(t.get(d), amt)
+	st.fbal[to] = t
 }
